@@ -272,14 +272,21 @@ def _apply_bwd(ctx, plan, case, rec, new, nk, hist, route, bwd_req, w, op):
 
 def h_regenerate(ctx, plan, case, rec, rng, nk, hist, route, guarded):
     term = obs.gen_selection(rng, case.node, depth=int(rng.integers(0, 3)))
-    hist.append(f"regenerate sel={term}")
-    out = guarded("regenerate", lambda: engine.op_regenerate(case, rec, nk(), term))
+    # a regenerate may come with changed arguments (a parent call site whose inputs moved)
+    change_args = rng.random() < 0.3
+    new_args = gen.perturb_args(rng, case.node, rec.args) if change_args else None
+    hist.append(f"regenerate sel={term}" + (f" new_args={_short(new_args)} tags=None" if change_args else ""))
+    if change_args:
+        ctx.count("regenerate_with_changed_args")
+    out = guarded("regenerate", lambda: engine.op_regenerate(case, rec, nk(), term, new_args=new_args, tags=None if change_args else "nochange"))
     if out is None:
         return None
     new, w, rd, bwd, issues = out
     if new is not None:
         selected = [p for p in rec.live() if obs.sel_contains(term, obs.static_of(p))]
-        if not selected:
+        if change_args:
+            pass
+        elif not selected:
             d = engine.same_trace(new, rec)
             if d:
                 issues.append(Issue("regen.identity", f"empty selection, unchanged arguments, but the trace changed: {d}"))
@@ -342,7 +349,7 @@ def h_index_edit(ctx, plan, case, rec, rng, nk, hist, route, guarded):
     n = _index_levels(case.node)
     if not n:
         return None
-    i = int(rng.choice([0, n // 2, n - 1]))
+    i = int(rng.choice([0, n // 2, n - 1, n - 1]))
     pos = "first" if i == 0 and n > 1 else ("last" if i == n - 1 else "middle")
     if n == 1:
         pos = "only"
